@@ -376,6 +376,30 @@ def run(ctx):
                        "source-term classes")
     positive_example(ctx, "R08.6")
     ctx.require_count("R08.6", 2)
+    # ---- R08.7 kernels leave what they are handed alone: the spectral grid, the spectrum and the parameter table are shared by
+    # every point of a batch (and by parallel threads); a kernel may write only an optional output buffer it was given for that
+    # purpose (a parameter whose default is None).  Effect summaries (E4): item stores, in-place updates of array aliases
+    # (`x = grid["k"]; x /= c`), mutating callees.
+    from ..effects import Effects
+    ef7 = Effects(p)
+    n7 = 0
+    for fk in p.all_functions:
+        if not (fk.module.name.startswith("wavephysics.balance.") and fk.jitted and fk.cls is None):
+            continue
+        if fk.module.name.rsplit(".", 1)[-1] in ("wind_inversion", "solvers", "stress"):
+            continue        # the inversion's roughness memory is a deliberate in/out argument (C10/C11)
+        n7 += 1
+        a_ = fk.node.args
+        defaults = dict(zip(reversed([x.arg for x in a_.posonlyargs + a_.args]), reversed(a_.defaults)))
+        outs = {k for k, v in defaults.items() if isinstance(v, ast.Constant) and v.value is None}
+        sm = ef7.summary(fk, None)
+        bad_w = [w for w in sm.writes if w.root not in outs]
+        ctx.expect(not bad_w, "R08.7", f"{fk.qualname.split('wavephysics.balance.')[-1]}[arguments left alone]",
+                   "the kernel writes nothing but its optional output buffer" if not bad_w else
+                   f"the kernel writes its argument `{bad_w[0].root}` ({bad_w[0].text}): the grid/spectrum/parameters are shared by all points "
+                   "of the batch, so every point after the first is computed from altered inputs",
+                   fk.loc(bad_w[0].node) if bad_w else fk.loc(), derived=bad_w[0].text if bad_w else "")
+    ctx.require_count("R08.7", 10)
     ctx.require_count("R08.1", 12)
     ctx.require_count("R08.2", 7)
     ctx.require_count("R08.3", 14)
